@@ -11,34 +11,41 @@ open Btcdeb
 
 /-- the part of the session the listing and the marker depend on -/
 def view (e : IEnv) :=
-  (e.see.script, e.see.flags, e.pc, e.tce, e.isP2sh, e.p2shStack, e.successor, e.done, e.currOpSeq, e.see.stack, e.see.cond)
+  (e.see.script, e.see.flags, e.pc, e.tce, e.isP2sh, e.p2shStack, e.successor, e.done, e.currOpSeq, e.see.stack, e.see.cond,
+   e.sigscriptExecuted, e.sigscriptPushonly)
 
 inductive StepCase (cx : Ctx) (ep e : IEnv) : Prop
   /-- one Merkle step of the taproot commitment -/
-  | merkle (t t' : Tce) : ep.tce = some t → t.i < t.pathLen → t'.control = t.control → t'.pathLen = t.pathLen → t'.i = t.i + 1 →
-      view e = (ep.see.script, ep.see.flags, ep.pc, some t', ep.isP2sh, ep.p2shStack, ep.successor, ep.done, ep.currOpSeq + 1, ep.see.stack, ep.see.cond) →
+  | merkle (t t' : Tce) : ep.tce = some t → t.i < t.pathLen → t'.control = t.control → t'.p = t.p → t'.pathLen = t.pathLen → t'.i = t.i + 1 →
+      view e = (ep.see.script, ep.see.flags, ep.pc, some t', ep.isP2sh, ep.p2shStack, ep.successor, ep.done, ep.currOpSeq + 1, ep.see.stack, ep.see.cond,
+              ep.sigscriptExecuted, ep.sigscriptPushonly) →
       StepCase cx ep e
   /-- the last step of the taproot commitment: the tweak check -/
   | tweak (t : Tce) : ep.tce = some t → ¬ t.i < t.pathLen →
-      view e = (ep.see.script, ep.see.flags, ep.pc, none, ep.isP2sh, ep.p2shStack, ep.successor, ep.done, ep.currOpSeq + 1, ep.see.stack, ep.see.cond) →
+      view e = (ep.see.script, ep.see.flags, ep.pc, none, ep.isP2sh, ep.p2shStack, ep.successor, ep.done, ep.currOpSeq + 1, ep.see.stack, ep.see.cond,
+              ep.sigscriptExecuted, ep.sigscriptPushonly) →
       StepCase cx ep e
   /-- an instruction of the current script -/
   | op (g : GotOp) (see' : SEE) : ep.tce = none → ep.pc ≠ [] → getOp ep.pc = some g → step cx ep.see ep.pc = .ok (see', g.rest) →
-      view e = (ep.see.script, ep.see.flags, g.rest, none, ep.isP2sh, ep.p2shStack, ep.successor, ep.done, ep.currOpSeq + 1, see'.stack, see'.cond) →
+      view e = (ep.see.script, ep.see.flags, g.rest, none, ep.isP2sh, ep.p2shStack, ep.successor, ep.done, ep.currOpSeq + 1, see'.stack, see'.cond,
+              ep.sigscriptExecuted, ep.sigscriptPushonly) →
       StepCase cx ep e
   /-- hand-over to the P2SH redeem script -/
   | p2sh (redeem : Bytes) : ep.tce = none → ep.pc = [] → ep.isP2sh = true → ep.p2shStack.getLast? = some redeem →
-      view e = (redeem, ep.see.flags, redeem, none, false, ep.p2shStack, ep.successor, ep.done, ep.currOpSeq + 1, ep.p2shStack.dropLast, ep.see.cond) →
+      (ep.sigscriptExecuted && !ep.sigscriptPushonly) = false →
+      view e = (redeem, ep.see.flags, redeem, none, false, ep.p2shStack, ep.successor, ep.done, ep.currOpSeq + 1, ep.p2shStack.dropLast, ep.see.cond,
+              ep.sigscriptExecuted, ep.sigscriptPushonly) →
       StepCase cx ep e
   /-- hand-over to the scriptPubKey -/
   | succ : ep.tce = none → ep.pc = [] → ep.isP2sh = false → ep.successor ≠ [] →
       view e = (ep.successor, ep.see.flags, ep.successor, none, p2shPattern ep.see.flags ep.successor,
                 (if p2shPattern ep.see.flags ep.successor then ep.see.stack else ep.p2shStack), [], ep.done, ep.currOpSeq + 1,
-                ep.see.stack, ep.see.cond) →
+                ep.see.stack, ep.see.cond, true, isPushOnly ep.see.script) →
       StepCase cx ep e
   /-- the end-of-script step -/
   | finish : ep.tce = none → ep.pc = [] → ep.isP2sh = false → ep.successor = [] →
-      view e = (ep.see.script, ep.see.flags, ep.pc, none, false, ep.p2shStack, [], true, ep.currOpSeq, ep.see.stack, ep.see.cond) →
+      view e = (ep.see.script, ep.see.flags, ep.pc, none, false, ep.p2shStack, [], true, ep.currOpSeq, ep.see.stack, ep.see.cond,
+              ep.sigscriptExecuted, ep.sigscriptPushonly) →
       StepCase cx ep e
 
 theorem stepSession_cases (cx : Ctx) (tc : TapCtx) (ep e : IEnv) (hs : stepSession cx tc ep = .ok e) : StepCase cx ep e := by
@@ -57,7 +64,7 @@ theorem stepSession_cases (cx : Ctx) (tc : TapCtx) (ep e : IEnv) (hs : stepSessi
         by_cases hlt : t.i < t.pathLen
         · simp only [hlt, if_true, Prod.mk.injEq, true_and] at hit
           subst hit
-          refine StepCase.merkle t ?t' htce hlt ?h1 ?h2 ?h3 ?hv
+          refine StepCase.merkle t ?t' htce hlt ?h1 ?h2 ?h3 ?h4 ?hv
           case hv => exact rfl
           all_goals rfl
         · simp only [hlt, if_false, Prod.mk.injEq] at hit
@@ -92,7 +99,7 @@ theorem stepSession_cases (cx : Ctx) (tc : TapCtx) (ep e : IEnv) (hs : stepSessi
                   | some redeem =>
                     simp only [hr] at hs
                     cases hs
-                    exact .p2sh redeem htce hpc' hp2 hr (by simp [view, htce])
+                    exact .p2sh redeem htce hpc' hp2 hr (by simpa using hpo) (by simp [view, htce])
               · simp [hps, fail] at hs
             · simp [hcb, fail] at hs
         · simp only [hp2, Bool.false_eq_true, if_false] at hs
